@@ -3,6 +3,7 @@ package core
 // C19: core builtins agree with their Go counterparts.
 
 import (
+	"math"
 	"reflect"
 
 	"github.com/mattn/anko/env"
@@ -217,14 +218,20 @@ func ZZ_C19_toInt_toFloat() {
 		u := zz.Uint8()
 		zz.Assert(toInt(u) == int64(u), "C19.toInt/uint8")
 	case 4:
-		strs := []string{"0", "-1", "42", "9223372036854775807", "1.5", "1e3", "-2.75", "007"}
-		ints := []int64{0, -1, 42, 9223372036854775807, 1, 1000, -2, 7}
-		floats := []float64{0, -1, 42, 9223372036854775807, 1.5, 1000, -2.75, 7}
+		// (the last four: decimal numerals outside int64 / float64 - strconv.ParseInt and
+		// ParseFloat give the nearest value of the type together with their range error)
+		strs := []string{"0", "-1", "42", "9223372036854775807", "1.5", "1e3", "-2.75", "007", "+5", "-9223372036854775808", "9223372036854775808", "-9223372036854775809", "1e309", "-1e309"}
+		ints := []int64{0, -1, 42, 9223372036854775807, 1, 1000, -2, 7, 5, -9223372036854775808, 9223372036854775807, -9223372036854775808, 0, 0}
+		floats := []float64{0, -1, 42, 9223372036854775807, 1.5, 1000, -2.75, 7, 5, -9223372036854775808, 9223372036854775808, -9223372036854775809, math.Inf(1), math.Inf(-1)}
 		k := zz.Choose(len(strs))
-		zz.Assert(toInt(strs[k]) == ints[k], "C19.toInt/decimal-string")
+		if k < 12 { // (an infinite float has no defined int64 reading)
+			zz.Assert(toInt(strs[k]) == ints[k], "C19.toInt/decimal-string")
+		}
 		zz.Assert(toFloat(strs[k]) == floats[k], "C19.toFloat/decimal-string")
 	case 5:
-		bad := []interface{}{nil, "", "abc", "1x", []interface{}{int64(1)}, map[interface{}]interface{}{}, []int64{1}, zzStruct{}}
+		// (among the non-numeric strings: everything strconv.ParseFloat reads that is not a decimal numeral)
+		bad := []interface{}{nil, "", "abc", "1x", []interface{}{int64(1)}, map[interface{}]interface{}{}, []int64{1}, zzStruct{},
+			"NaN", "Inf", "+Inf", "-inf", "infinity", "0x1p4", "0x10", "1_000", "0b11", "0o17", " 1", "1 ", "e5", "."}
 		k := zz.Choose(len(bad))
 		zz.Assert(toInt(bad[k]) == 0, "C19.toInt/non-numeric-is-0")
 		zz.Assert(toFloat(bad[k]) == 0, "C19.toFloat/non-numeric-is-0")
